@@ -109,3 +109,70 @@ def region(u: np.ndarray) -> np.ndarray:
         r = np.sqrt(-np.log(p))
     reg = np.where(np.abs(q) <= 0.425, 0, np.where(r <= 5.0, 1, 2))
     return reg
+
+
+# --------------------------------------------------------------------------
+# request histories (one process, many requests)
+# --------------------------------------------------------------------------
+N_HISTORY = {'quick': 240, 'thorough': 3000}
+H_FAMILIES = ['UNIFORM', 'UNIFORMSYM', 'NORMAL']
+H_SUFFIXES = ['', '_ANTI', '_HALTON2', '_HALTON3', '_HALTON5', '_MLHS', '_MLHS_ANTI']
+
+
+def history_cases(seed: int, tier: str) -> list[dict]:
+    return [{'mode': 'history', 'seed': seed, 'j': j} for j in range(N_HISTORY[tier])]
+
+
+def history_plan(case: dict, names: list[str]):
+    """-> (sizes, steps). sizes: list of (n, R) (R even: every entry accepts it). steps: requests made one after the
+    other in ONE process: {'op': 'gen', 'type', 'size', 'poison'} = catalogue generator called directly,
+    {'op': 'db', 'types', 'size', 'poison'} = Database.generate_draws on the (kept) database of that size.
+    'poison': the client overwrites the array it received with NaN afterwards. Triples (type, n, R) repeat on purpose,
+    related entries (NORMAL_x / UNIFORM_x / UNIFORMSYM_x) are requested with the same sizes in random order."""
+    rr = random.Random(case['seed'] * 15485863 + case['j'] * 7 + 3)
+    sizes = []
+    for _ in range(rr.choice([1, 1, 2, 3])):
+        n = rr.randint(1, 12) if rr.random() < 0.8 else rr.randint(13, 40)
+        r = 2 * rr.randint(1, 20) if rr.random() < 0.8 else 2 * rr.randint(21, 60)
+        if (n, r) not in sizes:
+            sizes.append((n, r))
+    steps = []
+
+    def gen(t, si=None):
+        return {'op': 'gen', 'type': t, 'size': rr.randrange(len(sizes)) if si is None else si, 'poison': rr.random() < 0.3}
+
+    def db(pool):
+        k = rr.randint(1, 4)
+        return {'op': 'db', 'types': [rr.choice(pool) for _ in range(k)], 'size': rr.randrange(len(sizes)), 'poison': rr.random() < 0.2}
+
+    if case['j'] % 3 == 0:
+        # the whole catalogue, random order, one size; then repeats and tables
+        order = list(names)
+        rr.shuffle(order)
+        steps = [gen(t, 0) for t in order]
+        for _ in range(rr.randint(3, 6)):
+            steps.append(gen(rr.choice(order), 0) if rr.random() < 0.7 else db(order))
+            steps[-1]['size'] = 0
+    else:
+        groups = rr.sample(H_SUFFIXES, rr.choice([1, 1, 2]))
+        related = [f + s for s in groups for f in H_FAMILIES if f + s in names]
+        length = rr.randint(5, 27)
+        while len(steps) < length:
+            c = rr.random()
+            if c < 0.15 and steps:
+                prev = rr.choice([s for s in steps if s['poison']] or steps)
+                steps.append(dict(prev, poison=rr.random() < 0.3))
+            elif c < 0.30:
+                steps.append(db(related if rr.random() < 0.7 else names))
+            elif c < 0.82:
+                steps.append(gen(rr.choice(related)))
+            else:
+                steps.append(gen(rr.choice(names)))
+    # a poisoned array must be followed by the identical request
+    added = 0
+    for i, s in enumerate(list(steps)):
+        if s['op'] == 'gen' and s['poison'] and added < 3:
+            if not any(t['op'] == 'gen' and t['type'] == s['type'] and t['size'] == s['size'] for t in steps[i + 1:]):
+                steps.append(dict(s, poison=False))
+                added += 1
+    return sizes, steps
